@@ -41,7 +41,8 @@ def gen_case(rng, tier):
             else:
                 ops.append("finish id=%d" % i)
         elif x < 0.95:
-            ops.append("adv ms=%d" % rng.choice([1, 100, 500, 1000, 3000]))
+            # also inner calls that stay pending for longer than a minute (the statistics' largest response time; seed C20-e)
+            ops.append("adv ms=%d" % rng.choice([1, 100, 500, 1000, 3000, 3000, 59999, 60001, 61000, 125000]))
         else:
             ops.append("conc res=%s" % rng.choice(ress))
     rng.shuffle(pending)
